@@ -4,7 +4,7 @@ Run after the quick checks of all properties; writes /verif/reference_counts.jso
 Rules whose instances are individual templates or identifiers (they come and go with ordinary edits of the
 compiler) keep 90 % slack; all others must not lose a single instance."""
 import json, glob, math
-VOLATILE = ("LINK.", "C16.lex", "C01.lex", "C01.adj", "C19.magic", "C14.literal")
+VOLATILE = ("LINK.", "C16.lex", "C01.lex", "C01.adj", "C19.magic", "C14.literal", "C16.space", "C16.stmt-end", "C01.once-operands")
 ref = {}
 for f in sorted(glob.glob('/verif/evidence/C*.json')):
     e = json.load(open(f))
